@@ -108,6 +108,13 @@ func (e *env) child(channel string, opts map[string][]string, withAPI bool) (*li
 		args = append(args, "--config-file="+cf)
 	}
 	c, err := lib.StartCLIAt(lib.Bin(e.run, "forwarder"), args, envs, filepath.Join(e.run.Work, fmt.Sprintf("wiring-%s-%d.log", channel, n)), lib.FreeAddr(), api)
+	for attempt := 0; err != nil && strings.Contains(err.Error(), "address already in use") && attempt < 3; attempt++ {
+		// the port picked for the child was taken by somebody else in the meantime: pick another
+		if withAPI {
+			api = lib.FreeAddr()
+		}
+		c, err = lib.StartCLIAt(lib.Bin(e.run, "forwarder"), args, envs, filepath.Join(e.run.Work, fmt.Sprintf("wiring-%s-%d.log", channel, n)), lib.FreeAddr(), api)
+	}
 	if err != nil {
 		// every option used here is documented: a binary that refuses one of them cannot honour it
 		// (the unchanged tree starts with each of these configurations; a port taken by somebody else is not the binary's fault)
@@ -258,7 +265,8 @@ func Run(run *lib.Run, prop string) {
 			}
 		}
 	}
-	run.Floor("wiring_checks", 1)
+	// every stage on every channel: a stage that could not run (child did not start) must not pass silently
+	run.Floor("wiring_checks", int64(3*len(scenarios[prop])))
 }
 
 func (e *env) base() map[string][]string {
